@@ -135,6 +135,16 @@ def run(ctx):
             sources.append(src)
             schemas.append(gen.build(src))
             dist["relaxed_dicts"] += 1
+        if q % 7 == 3:
+            # a schema whose generation RAISES part-way (an unsupported construct inside a repeat), followed by
+            # patterns with repeats: a failed generation must leave nothing behind that later values depend on
+            bad = r.choice(["schema.str.regex('a(\\\\s)+')", "schema.str.regex('(x\\\\b){2,}')", "schema.list(schema.str.regex('(\\\\s|b)*c')).len(2)"])
+            after = r.sample(["schema.str.regex('[a-c]{2,}x+')", "schema.str.regex('\\\\w+@\\\\w+')", "schema.str.regex('(ab)*c{3,}')",
+                              "schema.list(schema.str.regex('\\\\d+')).len(3)"], 2)
+            for src in [bad] + after:
+                sources.append(src)
+                schemas.append(gen.build(src))
+            dist["raising_then_repeats"] = dist.get("raising_then_repeats", 0) + 1
         if q % 5 == 2:
             # schemas built by make_required / + from dicts with several drawing members: the ORDER of
             # the result's keys decides the order of the draws (keys given as a set, or not at all)
